@@ -32,7 +32,11 @@ LOOKALIKES = ["", " ", "1", " 1 ", "1.0", "-0", "1e5", "1E400", "null", "None", 
               "é", "日本語", "\x00", "\x1f", "a\nb", "\t[1]\n", "0x10", "1_000", "0123", "1/2", "2020-01-01", "12:30:00", "PT1S",
               "00000000-0000-0000-0000-000000000001", "[1, [2, [3]]]", '{"a": {"b": [1, 2.5, null, true]}}', "x" * 5000, "[" + "1," * 500 + "1]",
               '{"a":1,"a":2}', "1 2", "[1] [2]", "tru", "nul", "+1", ".5", "5.", "1e", "--1", '["a", "b"]', "b'x'", "...", "a b", "[[1, 2], [3, 4]]",
-              '{"f0": 1, "f1": "x", "x": 2.5}', '"a\\/b"', '"\\ud83d\\ude00"', '["\\/", "\\b\\f"]', '{"k\\/": "\\u0041"}', "100000000000000000000000000000", "[100000000000000000000000000000]", "-9223372036854775809"]
+              '{"f0": 1, "f1": "x", "x": 2.5}', '"a\\/b"', '"\\ud83d\\ude00"', '["\\/", "\\b\\f"]', '{"k\\/": "\\u0041"}', "100000000000000000000000000000", "[100000000000000000000000000000]", "-9223372036854775809",
+              # temporal texts that only some parsers read (whatever the answer is, it is the same in every carrier)
+              "1900-01-01T12:30:00+05:53:28", "2020-01-01T10:00:00 +01:00", "2020-01-01T10:00:00.+01:00", "20200101T100000Z", "2020-W01-1", "2020-001",
+              "12:30:00+05:53:28", "12:30", "24:00:00", "2020-01-01T24:00:00", "2020-01-01 10:00:00", "2020-01-01T10:00:00,5", "-P1DT2H", "P1W", "PT0.5S",
+              "0001-01-01", "9999-12-31T23:59:59.999999+00:00", "1577836800", "1577836800.5", "-1", "2020-13-01", "2020-02-30"]
 
 
 ODD_CHARS = ["\ufeff", "\u00a0", "\u200b", "\u2028", "\u2003", "\x85", "\x1c", "\x0b", "\x0c", "\ufffe", "\u202e"]
